@@ -71,6 +71,20 @@ class Arrays:
                 flat[0], flat[1] = K.BLEND, -K.BLEND
                 flat[2] = 0.0
             return a
+        if kind == "vel_ties":
+            # velocities with exact zeros and exact ties v[i+1] == -v[i] along every axis (ENO3 upwind switch v_i > -v_{i+1})
+            a = r.standard_normal(shape) * self.level
+            a[r.random(size=shape) < 0.15] = 0.0
+            for ax in range(1, len(shape)):
+                n = shape[ax]
+                if n >= 2:
+                    idx = r.integers(0, n - 1, size=max(1, n // 3))
+                    src = np.take(a, idx, axis=ax)
+                    sl = [slice(None)] * len(shape)
+                    for j, i in enumerate(idx):
+                        sl[ax] = int(i) + 1
+                        a[tuple(sl)] = -np.take(src, j, axis=ax)
+            return a
         return r.standard_normal(shape) * self.level
 
     # -- roles ----------------------------------------------------------------------------------------
